@@ -45,6 +45,8 @@ Lin(p) ==
                  /\ UNCHANGED <<closed, limitCount, limitSize, dl>>
          [] c.op = "Cl" -> Close /\ Finish(p, NoRes)
          [] c.op = "DL" -> SetDeadline(c.d) /\ Finish(p, NoRes)
+         [] c.op = "LS" -> SetLimitSize(c.n) /\ Finish(p, NoRes)
+         [] c.op = "LC" -> SetLimitCount(c.n) /\ Finish(p, NoRes)
 
 Ret(p, r) == /\ p \in DOMAIN pend /\ pend[p].done
              /\ pend[p].res = r.res /\ pend[p].rn = r.rn /\ pend[p].rb4 = r.rb4
